@@ -366,7 +366,9 @@ def run(ch, idx, tier):
         bump("model_years_x1000", int(1000 * (res.t[-1] - res.t[0])))
         oplog.append([c["k"], op, d])
         if d != c["ref"]:
-            violate("output_differs_from_isolated_run", op, {"client": c["k"], "project": c["name"], "variant": c["variant"], "op": op, "template": c["template"], "digest": d, "reference": c["ref"], "n_clients": K})
+            # site = the kind of operation that produced the result (the full path of operations is in the detail)
+            kind_ = op.split("+")[-1] if "+" in op else op
+            violate("output_differs_from_isolated_run", kind_, {"client": c["k"], "project": c["name"], "variant": c["variant"], "op": op, "template": c["template"], "digest": d, "reference": c["ref"], "n_clients": K})
 
     def body(c, bc):
         b = baton_holder["b"]
